@@ -469,7 +469,7 @@ def check_primitive_puts(ctx):
     and nan: a handler that splices `repr(value)` must deal with each of them (rewrite or reject)."""
     from ..cfg import CFG, subnodes
     ctx.rule('R1.5', 'a put handler of a primitive field stores the new value into the AST only after the source text was changed', 5)
-    ctx.rule('R1.6', 'a handler that writes repr(value) as source handles the values whose repr is not their source (Ellipsis, inf, nan)', 3)
+    ctx.rule('R1.6', 'a handler that writes repr(value) as source handles the values whose repr is not their source (Ellipsis, inf, nan, negative zero, complex with a real part)', 3)
     n5 = 0
     for fi in ctx.repo.all_funcs():
         if isinstance(fi.node, ast.Lambda) or fi.module != 'fst_put_one' or not fi.name.startswith('_put_one_'):
@@ -507,10 +507,20 @@ def check_primitive_puts(ctx):
                 consts = {y.value for y in walk_no_nested(fi.node) if isinstance(y, ast.Constant) and isinstance(y.value, str)}
                 has_ellipsis = any(isinstance(y, ast.Constant) and y.value is ... for y in walk_no_nested(fi.node)) or \
                     any(isinstance(y, ast.Name) and y.id in ('Ellipsis', 'EllipsisType') for y in walk_no_nested(fi.node))
-                for what, ok in (('Ellipsis', has_ellipsis), ('inf', 'inf' in consts), ('nan', 'nan' in consts)):
+                names = {y.id for y in walk_no_nested(fi.node) if isinstance(y, ast.Name)} | {y.attr for y in walk_no_nested(fi.node) if isinstance(y, ast.Attribute)}
+                # a sign that `value < 0` cannot see (-0.0, -0j) is visible in the text or through copysign; a complex number with a real part
+                # has the repr `(1+2j)`, an expression
+                neg_zero = 'copysign' in names or any(k.startswith('-') for k in consts)
+                cplx_real = 'real' in names or any(k.startswith('(') for k in consts)
+                for what, ok, how in (('Ellipsis', has_ellipsis, 'a name, not a literal: the source re-parses to a Name'),
+                                      ('inf', 'inf' in consts, 'a name, not a literal: the source re-parses to a Name'),
+                                      ('nan', 'nan' in consts, 'a name, not a literal: the source re-parses to a Name'),
+                                      ('negative zero', neg_zero, '`-0.0` / `-0j`, a unary minus applied to a literal (and `value < 0` is false for it): the '
+                                                                  'source re-parses to a UnaryOp'),
+                                      ('complex with a real part', cplx_real, '`(1+2j)`, an addition: the source re-parses to a BinOp')):
                     ctx.check('R1.6', ok, fi.module, fi.qualname, f'repr({c.args[0].id}) written as source: {what}',
-                              f'`repr(value)` is spliced as the source of the constant but nothing in the handler deals with {what}, whose repr is a name, not '
-                              f'a literal: the source re-parses to a Name while the tree holds a Constant', c.lineno,
+                              f'`repr(value)` is spliced as the source of the constant but nothing in the handler deals with {what}, whose repr is {how} '
+                              f'while the tree holds a Constant', c.lineno,
                               sample={'function': fi.key, 'case': what})
     if n5 < 5:
         raise AnalysisError(f'only {n5} primitive stores in put handlers found')
